@@ -44,6 +44,8 @@ def check(ctx: Ctx):
     nonetest.check(ctx, m.func(f"{EM}.Emulsion.interface_width"), "interface_width", "a member's interface width")
     col.check_linked_data(ctx)
     col.check_order_free(ctx)
+    col.check_copy_total(ctx)
+    ctx.expect("COPYALL", 2)
     # merging members in place (out aliases the first operand) equals the out-of-place merge
     from . import c11
 
